@@ -16,8 +16,25 @@ OPEN = {'(': ')', '[': ']', '{': '}'}
 CLOSE = {')', ']', '}'}
 
 
+def _skip_char(s, i):
+    """s[i] == "'": index after a char literal ('x', '\\n', '\\'', '"', '\\u{..}') starting here, or None if
+    this quote starts a lifetime"""
+    n = len(s)
+    if s[max(0, i - 6):i] != 'const ' and not (i + 2 < n and s[i + 2] == "'"):
+        return None
+    j = i + 1
+    if j < n and s[j] == '\\':
+        j += 1
+    j = s.find("'", j + 1)
+    if 0 < j <= i + 12:
+        return j + 1
+    return None
+
+
 def _skip_string(s, i):
     """s[i] == '"'; return index after the closing quote."""
+    if i > 0 and s[i - 1] == "'" and i + 1 < len(s) and s[i + 1] == "'":
+        return i + 1            # the char literal '"'
     i += 1
     n = len(s)
     while i < n:
@@ -85,6 +102,11 @@ def match_close(s, i):
         if c == '"':
             i = _skip_string(s, i)
             continue
+        if c == "'":
+            j_ = _skip_char(s, i)
+            if j_ is not None:
+                i = j_
+                continue
         if c in OPEN:
             depth += 1
         elif c in CLOSE:
@@ -107,6 +129,11 @@ def match_open_back(s, j):
         if c == '"':
             i = _skip_string(s, i)
             continue
+        if c == "'":
+            j_ = _skip_char(s, i)
+            if j_ is not None:
+                i = j_
+                continue
         if c in OPEN:
             stack.append(i)
         elif c in CLOSE:
@@ -395,6 +422,11 @@ def split_assign(s):
         if c == '"':
             i = _skip_string(s, i)
             continue
+        if c == "'":
+            j_ = _skip_char(s, i)
+            if j_ is not None:
+                i = j_
+                continue
         if c in OPEN:
             depth += 1
         elif c in CLOSE:
@@ -502,6 +534,7 @@ class Fn:
         self.nlines = 0
         self.value_text = None      # for `const X: T = const V;`
         self.captures = {}          # closure bodies: captured field index -> source name
+        self.named = set()          # locals that carry a user variable name (debug info)
         self.parsed = False
         self._raw = None
 
@@ -552,6 +585,9 @@ def parse_body(fn):
     for ln, raw in fn._raw:
         s = raw.strip()
         if s.startswith('debug '):
+            m2 = re.match(r'^debug ([A-Za-z_0-9]+) => _(\d+);', s)
+            if m2:
+                fn.named.add(int(m2.group(2)))
             m = re.match(r'^debug ([A-Za-z_0-9]+) => .*?\(\*?_1\)?\.(\d+)', s)
             if m and '(*_1)' in s.split('=>')[1][:12] or (m and s.split('=> ')[1].startswith(('(_1.', '((*_1).', '(*((*_1).', '(*(_1.'))):
                 fn.captures.setdefault(int(m.group(2)), m.group(1))
